@@ -27,6 +27,7 @@ import (
 	"strings"
 
 	"github.com/php-any/origami/data"
+	"github.com/php-any/origami/node"
 	ohttp "github.com/php-any/origami/std/net/http"
 
 	"verif/engine/pool"
@@ -34,7 +35,7 @@ import (
 )
 
 type hop struct {
-	Op   string `json:"op"`             // "M" middleware | "R" route | "G" group creation
+	Op   string `json:"op"`             // "M" middleware | "R" route | "G" group creation | "Q" serve a request to every route registered so far
 	Obj  int    `json:"obj"`            // object the call is made on (0 = root server, k = k-th created group)
 	Kind int    `json:"kind,omitempty"` // M: 0 closure, 1 class instance with handle()
 	Prio int    `json:"prio,omitempty"` // M: index into prioTab
@@ -52,11 +53,12 @@ var prioTab = []prioDef{{"d", "", 0}, {"1", ", 1", 1}, {"-1", ", -1", -1}, {"0",
 var formTab = []string{"get", "any", "static", "post"}
 
 type histBound struct {
-	MaxLen  int `json:"max_len"`
-	MaxObj  int `json:"max_obj"` // root + groups
-	NPrio   int `json:"nprio"`
-	NForm   int `json:"nform"`
-	MaxKind int `json:"max_kind"`
+	MaxLen  int  `json:"max_len"`
+	MaxObj  int  `json:"max_obj"` // root + groups
+	NPrio   int  `json:"nprio"`
+	NForm   int  `json:"nform"`
+	MaxKind int  `json:"max_kind"`
+	Serve   bool `json:"serve"` // "Q" in the alphabet: requests served between configuration calls
 }
 
 type histShard struct {
@@ -75,6 +77,8 @@ func (o hop) String() string {
 		return fmt.Sprintf("M%s.%s@%d", k, prioTab[o.Prio].label, o.Obj)
 	case "R":
 		return fmt.Sprintf("R%s@%d", formTab[o.Form], o.Obj)
+	case "Q":
+		return "Q"
 	}
 	return fmt.Sprintf("G@%d", o.Obj)
 }
@@ -90,16 +94,23 @@ func histString(h []hop) string {
 // nextOps lists every op that may follow history h inside the bound (validity only, no pruning).
 func nextOps(h []hop, b histBound) []hop {
 	nobj := 1
+	routes := 0
 	anyUsed := map[int]bool{}
 	for _, o := range h {
 		if o.Op == "G" {
 			nobj++
+		}
+		if o.Op == "R" {
+			routes++
 		}
 		if o.Op == "R" && formTab[o.Form] == "any" {
 			anyUsed[o.Obj] = true
 		}
 	}
 	var r []hop
+	if b.Serve && routes > 0 && h[len(h)-1].Op != "Q" {
+		r = append(r, hop{Op: "Q"})
+	}
 	for obj := 0; obj < nobj; obj++ {
 		for k := 0; k <= b.MaxKind; k++ {
 			for p := 0; p < b.NPrio; p++ {
@@ -122,15 +133,21 @@ func nextOps(h []hop, b histBound) []hop {
 // valid: object references exist, at most one any() per object.
 func histValid(h []hop) bool {
 	nobj := 1
+	routes := 0
 	anyUsed := map[int]bool{}
-	for _, o := range h {
+	for i, o := range h {
 		if o.Obj < 0 || o.Obj >= nobj {
 			return false
 		}
 		switch o.Op {
 		case "G":
 			nobj++
+		case "Q":
+			if routes == 0 || h[i-1].Op == "Q" {
+				return false
+			}
 		case "R":
+			routes++
 			if formTab[o.Form] == "any" {
 				if anyUsed[o.Obj] {
 					return false
@@ -148,7 +165,13 @@ func worthRunning(h []hop) bool {
 	routes := 0
 	nobj := 1
 	used := map[int]bool{}
+	if len(h) > 0 && h[len(h)-1].Op == "Q" {
+		return false // every route is requested after the last call anyway
+	}
 	for _, o := range h {
+		if o.Op == "Q" {
+			continue
+		}
 		used[o.Obj] = true
 		if o.Op == "G" {
 			nobj++
@@ -349,8 +372,11 @@ func histScript(h []hop, dir string) string {
 				fmt.Fprintf(&sb, "$s%d->static('/t%d', '%s');\n", o.Obj, nr, dir)
 			}
 			nr++
+		case "Q":
+			sb.WriteString("vq($s0);\n")
 		}
 	}
+	sb.WriteString("vq($s0);\n")
 	return sb.String()
 }
 
@@ -394,89 +420,159 @@ func routeTargets(h []hop, r routeExp) []target {
 	return ts
 }
 
+// one served request
+type reqObs struct {
+	Route  int    `json:"route"`
+	At     string `json:"at"` // "Q<k>" (between configuration calls) | "end1" | "end2"
+	Trace  string `json:"trace"`
+	Static bool   `json:"static_served"`
+	NM     int    `json:"-"` // middlewares registered so far
+}
+
 type histObs struct {
-	Traces [][2]string `json:"traces"` // per route: trace of the first and of the second request
-	Static []bool      `json:"-"`
-	Err    string      `json:"err,omitempty"`
+	Reqs []reqObs
+	Err  string
+}
+
+// vqFunc is the script-callable `vq($server)`: it serves one request per registered route through
+// the server's mux at that point of the configuration (Go callback, no script involved).
+type vqFunc struct{ cb func(mux *nh.ServeMux) }
+
+func (f vqFunc) Call(ctx data.Context) (data.GetValue, data.Control) {
+	v, _ := ctx.GetIndexValue(0)
+	var mux *nh.ServeMux
+	if cv, ok := v.(*data.ClassValue); ok && cv != nil {
+		mux, _ = cv.GetSource().(*nh.ServeMux)
+	}
+	f.cb(mux)
+	return nil, nil
+}
+func (f vqFunc) GetName() string { return "vq" }
+func (f vqFunc) GetParams() []data.GetValue {
+	return []data.GetValue{node.NewParameter(nil, "s", 0, nil, nil)}
+}
+func (f vqFunc) GetVariables() []data.Variable {
+	return []data.Variable{node.NewVariable(nil, "s", 0, nil)}
 }
 
 func histRun(h []hop, dir string) (histObs, []routeExp, map[int]int) {
 	routes, prioOf := histReference(h)
 	var o histObs
-	res, s := runner.RunKeep(histScript(h, dir), runner.Opts{Setup: func(vm data.VM) { ohttp.Load(vm) }})
-	defer s.Close()
-	if res.Kind != "ok" {
-		o.Err = "define:" + res.Kind + ":" + res.Class + ":" + res.Msg + res.PanicKey
-		return o, routes, prioOf
+	// what is registered at each vq() call
+	type point struct {
+		nr, nm int
+		label  string
 	}
-	cv, _ := s.Var("s0").(*data.ClassValue)
-	if cv == nil {
-		o.Err = "server object not found"
-		return o, routes, prioOf
+	var points []point
+	nr, nm, nq := 0, 0, 0
+	for _, op := range h {
+		switch op.Op {
+		case "R":
+			nr++
+		case "M":
+			nm++
+		case "Q":
+			nq++
+			points = append(points, point{nr, nm, fmt.Sprintf("Q%d", nq)})
+		}
 	}
-	mux, _ := cv.GetSource().(*nh.ServeMux)
-	if mux == nil {
-		o.Err = "mux not reachable"
-		return o, routes, prioOf
-	}
-	o.Traces = make([][2]string, len(routes))
-	o.Static = make([]bool, len(routes))
-	for i := range o.Static {
-		o.Static[i] = true
-	}
-	for pass := 0; pass < 2; pass++ {
-		for k := range routes {
-			ri := k
-			if pass == 1 {
-				ri = len(routes) - 1 - k // second pass in reverse order
-			}
-			r := routes[ri]
-			var req *nh.Request
-			for _, t := range routeTargets(h, r) {
-				cand := httptest.NewRequest(t.method, t.path, nil)
-				if _, pat := mux.Handler(cand); pat == t.pattern {
-					req = cand
-					break
-				}
-			}
-			if req == nil {
-				o.Err += fmt.Sprintf("route %d (%s on s%d) not reachable at %v; ", r.Route, formTab[r.Form], r.Obj, routeTargets(h, r))
-				continue
-			}
-			rec := httptest.NewRecorder()
-			g := runner.Guard(func() { mux.ServeHTTP(rec, req) })
-			o.Traces[ri][pass] = s.Out()
-			if g.Kind != "ok" {
-				o.Err += fmt.Sprintf("route %d: %s:%s:%s%s; ", r.Route, g.Kind, g.Class, g.Msg, g.PanicKey)
-			}
-			if formTab[r.Form] == "static" && !(rec.Code == 200 && rec.Body.String() == "F") {
-				o.Static[ri] = false
+	points = append(points, point{nr, nm, "end"})
+	calls := 0
+	serve := func(mux *nh.ServeMux, ri int, at string, nm int) {
+		r := routes[ri]
+		var req *nh.Request
+		for _, t := range routeTargets(h, r) {
+			cand := httptest.NewRequest(t.method, t.path, nil)
+			if _, pat := mux.Handler(cand); pat == t.pattern {
+				req = cand
+				break
 			}
 		}
+		if req == nil {
+			o.Err += fmt.Sprintf("route %d (%s on s%d) not reachable at %v; ", r.Route, formTab[r.Form], r.Obj, routeTargets(h, r))
+			return
+		}
+		var buf strings.Builder
+		saved := data.WriteOutput
+		data.WriteOutput = func(x string) { buf.WriteString(x) }
+		rec := httptest.NewRecorder()
+		g := runner.Guard(func() { mux.ServeHTTP(rec, req) })
+		data.WriteOutput = saved
+		if g.Kind != "ok" {
+			o.Err += fmt.Sprintf("route %d at %s: %s:%s:%s%s; ", r.Route, at, g.Kind, g.Class, g.Msg, g.PanicKey)
+		}
+		st := true
+		if formTab[r.Form] == "static" {
+			st = rec.Code == 200 && rec.Body.String() == "F"
+		}
+		o.Reqs = append(o.Reqs, reqObs{Route: ri, At: at, Trace: buf.String(), Static: st, NM: nm})
+	}
+	cb := func(mux *nh.ServeMux) {
+		if calls >= len(points) {
+			o.Err += "vq called too often; "
+			return
+		}
+		pt := points[calls]
+		calls++
+		if mux == nil {
+			o.Err += "mux not reachable; "
+			return
+		}
+		if pt.label != "end" {
+			for ri := 0; ri < pt.nr; ri++ {
+				serve(mux, ri, pt.label, pt.nm)
+			}
+			return
+		}
+		for ri := 0; ri < pt.nr; ri++ {
+			serve(mux, ri, "end1", pt.nm)
+		}
+		for ri := pt.nr - 1; ri >= 0; ri-- { // every route a second time, in reverse order
+			serve(mux, ri, "end2", pt.nm)
+		}
+	}
+	res := runner.Run(histScript(h, dir), runner.Opts{Setup: func(vm data.VM) {
+		ohttp.Load(vm)
+		vm.AddFunc(vqFunc{cb: cb})
+	}})
+	if res.Kind != "ok" {
+		o.Err = "define:" + res.Kind + ":" + res.Class + ":" + res.Msg + res.PanicKey + "; " + o.Err
+	} else if calls != len(points) {
+		o.Err += fmt.Sprintf("vq ran %d times, expected %d; ", calls, len(points))
 	}
 	return o, routes, prioOf
 }
 
-// histClause: first violated clause over all routes and both passes, with a description.
-func histClause(h []hop, dir string) (clause, detail, sig string) {
+// histClause: first violated clause over all served requests, with a description.
+func histClause(h []hop, dir string) (clause, detail, sig string, nreq int) {
 	o, routes, prioOf := histRun(h, dir)
 	var sigs []string
-	for ri := range o.Traces {
-		sigs = append(sigs, o.Traces[ri][0])
-	}
-	sig = strings.Join(sigs, "|")
-	if o.Err != "" {
-		return "mw-error", o.Err, sig
-	}
-	for ri, r := range routes {
-		for pass := 0; pass < 2; pass++ {
-			if cl := judge(r, prioOf, o.Traces[ri][pass], o.Static[ri]); cl != "" {
-				return cl, fmt.Sprintf("route %d (%s on object s%d), request %d:\nrequired chain %v (optional %v)\nexpected trace %q\nobserved trace %q (static file served: %v)",
-					r.Route, formTab[r.Form], r.Obj, pass+1, r.Required, r.Optional, expectTrace(r), o.Traces[ri][pass], o.Static[ri]), sig
-			}
+	for _, q := range o.Reqs {
+		if q.At != "end2" {
+			sigs = append(sigs, q.Trace)
 		}
 	}
-	return "", "", sig
+	sig = strings.Join(sigs, "|")
+	nreq = len(o.Reqs)
+	if o.Err != "" {
+		return "mw-error", o.Err, sig, nreq
+	}
+	for _, q := range o.Reqs {
+		r := routes[q.Route]
+		// a middleware that is not registered yet cannot be expected or tolerated
+		var opt []int
+		for _, id := range r.Optional {
+			if id < q.NM {
+				opt = append(opt, id)
+			}
+		}
+		r.Optional = opt
+		if cl := judge(r, prioOf, q.Trace, q.Static); cl != "" {
+			return cl, fmt.Sprintf("route %d (%s on object s%d), request served at %s:\nrequired chain %v (optional %v)\nexpected trace %q\nobserved trace %q (static file served: %v)",
+				r.Route, formTab[r.Form], r.Obj, q.At, r.Required, r.Optional, expectTrace(r), q.Trace, q.Static), sig, nreq
+		}
+	}
+	return "", "", sig, nreq
 }
 
 // ---- reduction -----------------------------------------------------------------------------
@@ -520,7 +616,7 @@ func reduceHist(h []hop, clause, dir string) []hop {
 		if !histValid(cand) {
 			return false
 		}
-		cl, _, _ := histClause(cand, dir)
+		cl, _, _, _ := histClause(cand, dir)
 		return cl == clause
 	}
 	for changed := true; changed; {
@@ -581,13 +677,9 @@ func histWorker(w *pool.W, arg json.RawMessage) {
 			return
 		}
 		n++
-		cl, _, sig := histClause(h, sh.Dir)
+		cl, _, sig, nreq := histClause(h, sh.Dir)
 		outcomes[sig] = true
-		for _, o := range h {
-			if o.Op == "R" {
-				routesN += 2
-			}
-		}
+		routesN += int64(nreq)
 		sample = append(sample[:0], h...)
 		if cl == "" {
 			return
@@ -603,7 +695,7 @@ func histWorker(w *pool.W, arg json.RawMessage) {
 			return
 		}
 		failed[key] = true
-		_, detail, _ := histClause(red, sh.Dir)
+		_, detail, _, _ := histClause(red, sh.Dir)
 		w.Emit(rec{Kind: "fail", Key: key, Clause: cl, Size: len(red), Case: map[string]any{"kind": "hist", "hist": red, "script": histScript(red, "<dir>")}, Detail: "configuration history " + histString(red) + "\n" + detail})
 	}
 	var rec_ func(h []hop)
